@@ -17,7 +17,8 @@ import (
 
 func init() {
 	register(&Check{
-		ID: "C14", Level: "exploration", Configs: []string{"clean", "foreign"},
+		ID:      "C14",
+		Tenants: func(c *core.Ctx, i int) tenant { return tenantCodec(c, kH265, kH265DONL) }, Level: "exploration", Configs: []string{"clean", "foreign"},
 		Run:         runC14,
 		QuickRuns:   1_000_000,
 		ThoroughSec: 600,
